@@ -26,7 +26,12 @@ F_BASE_H5 = "base_h5_%d.biom" % PID
 VOCAB = [t for t in core.TYPES if t is not None]
 KEYS = ["id", "format", "format_url", "matrix_type", "generated_by", "date", "type",
         "matrix_element_type", "shape", "data", "rows", "columns"]
-DATE_FORMATS = ["%Y-%m-%d", "%Y-%m-%dT%H:%M", "%Y-%m-%dT%H:%M:%S", "%Y-%m-%dT%H:%M:%S.%f"]
+DATE_FORMATS = ["%Y-%m-%d", "%Y-%m-%dT%H:%M", "%Y-%m-%dT%H:%M:%S", "%Y-%m-%dT%H:%M:%S.%f",
+                "%Y-%m-%dT%H:%M:%S%z", "%Y-%m-%dT%H:%M:%S.%f%z"]
+# accepted spellings of the format_version argument
+JSON_FVS = (None, "1.0.0")
+H5_FVS = (None, "2.1", "2.1.0", "2.0", "2.0.0")
+F_SHARED = "shared_%d.biom" % PID
 # HDF5 mutation classes the validator is known not to look at (known findings F-C15-1..6)
 H5_PASS_CLASSES = ("index-out-of-range", "index-negative", "data-elem-type", "indices-elem-type",
                    "blank-id", "dup-id")
@@ -198,23 +203,30 @@ def json_mutations(doc):
 
 
 # ----------------------------------------------------------------------------- running the real code
-def real_validate(path):
-    """(verdict, number of report lines | None) from the real validator, in-process"""
+def real_validate(path, fv=None):
+    """(verdict, number of report lines | None) from the real validator, in-process; SystemExit and
+    every other exception count as `crash`"""
     from biom.cli.table_validator import _validate_table
+    saved = os.dup(1)
     try:
-        valid, report = _validate_table(path)
-    except Exception:
+        valid, report = _validate_table(path, fv)
+    except KeyboardInterrupt:
+        raise
+    except BaseException:
         return "crash", None
+    finally:
+        os.dup2(saved, 1)
+        os.close(saved)
     return ("valid" if valid else "invalid"), len(report)
 
 
-def real_exit(path):
+def real_exit(path, fv=None):
     """exit status and last line of the `validate-table` sub-command (not the click group)"""
     from click.testing import CliRunner
     from biom.cli.table_validator import validate_table
     saved = os.dup(1)
     try:
-        res = CliRunner().invoke(validate_table, ["-i", path])
+        res = CliRunner().invoke(validate_table, ["-i", path] + (["-f", fv] if fv is not None else []))
     finally:
         os.dup2(saved, 1)
         os.close(saved)
@@ -237,8 +249,8 @@ def real_load(path):
         return {"error": type(e).__name__}
 
 
-def check_exit(ctx, case, path, model_exit, verdict, tags):
-    code, last = real_exit(path)
+def check_exit(ctx, case, path, model_exit, verdict, tags, fv=None):
+    code, last = real_exit(path, fv)
     ctx.count("cli-exit=%d" % code)
     expect_last = "The input file is a valid BIOM-formatted file." if verdict == "valid" else \
         ("The input file is not a valid BIOM-formatted file." if verdict == "invalid" else None)
@@ -254,46 +266,62 @@ def check_exit(ctx, case, path, model_exit, verdict, tags):
 
 # ----------------------------------------------------------------------------- JSON cases
 def json_case(ctx, case, base_doc, muts, doc=None, text=None, is_base=False, tags=(), with_exit=False,
-              written_from=None):
-    """one JSON case: (base_doc, muts) -> mutated doc written to a file, validated, loaded, judged"""
+              written_from=None, fvs=(None,), path=None):
+    """one JSON case: (base_doc, muts) -> mutated doc written to a file, validated under each spelling of
+    the format_version argument in `fvs`, loaded when accepted, judged"""
     if doc is None:
         doc = base_doc
         for m in muts:
             doc = j_apply(m, doc)
-    path = os.path.join(TMP, F_CASE)
+    if path is None:
+        path = os.path.join(TMP, F_CASE)
     with open(path, "w") as f:
         f.write(text if text is not None else json.dumps(doc))
-    verdict, nlines = real_validate(path)
-    load = real_load(path) if verdict == "valid" else None
-    req = {"op": "json", "doc": enc(doc), "date_ok": date_ok(doc.get("date")) if isinstance(doc, dict) else False,
-           "verdict": verdict, "nlines": nlines if isinstance(doc, dict) else None, "is_base": is_base, "load": load}
-    if muts:
-        req["base"] = enc(base_doc)
-        req["muts"] = [enc_mut(m) for m in muts]
-    if written_from is not None:
-        # the table the file was written from: Lean checks that the file IS `docOf` of that table
-        req["written_from"] = {"obs": written_from["obs"], "samp": written_from["samp"],
-                               "rows": core.grid_frac(written_from["rows"])}
-    r = ctx.driver.ask(req)
-    cls = "+".join(m["m"] for m in muts) if muts else ("written" if is_base else "corpus-doc")
-    if len(muts) <= 1:
-        ctx.count("json:%s->%s" % (cls, verdict))
-    else:
-        ctx.count("json:double->%s" % verdict)
-    if verdict == "valid":
-        ctx.count("json:accepted-loaded=%s" % ("ok" if load and "ok" in load else "FAIL"))
-    tags = tuple(tags) + ("json",) + tuple(sorted({m["m"] for m in muts}))
-    if not r["holds"]:
-        extra = ()
-        if r["clause"] == "valid_loads":
-            extra = ("load-error:%s" % (load or {}).get("error", "mismatch"),)
-        ctx.fail(case, r["clause"], tags + extra, detail={"model": r["model"], "verdict": verdict, "load": load})
-    elif not r["agree"]:
-        ctx.diverge(case, "model differs: %s" % ",".join(r["differs"]), tags,
-                    detail={"model": r["model"], "verdict": verdict, "nlines": nlines, "load": load})
-    if with_exit:
-        check_exit(ctx, case, path, r["model"]["exit"], verdict, tags)
-    return r, verdict
+    load = None
+    out = None
+    base_tags = tuple(tags) + ("json",) + tuple(sorted({m["m"] for m in muts}))
+    for k, fv in enumerate(fvs):
+        verdict, nlines = real_validate(path, fv)
+        if verdict == "valid" and load is None:
+            load = real_load(path)
+        req = {"op": "json", "doc": enc(doc),
+               "date_ok": date_ok(doc.get("date")) if isinstance(doc, dict) else False,
+               "verdict": verdict, "nlines": nlines if isinstance(doc, dict) else None, "is_base": is_base,
+               "load": load if verdict == "valid" else None}
+        if muts:
+            req["base"] = enc(base_doc)
+            req["muts"] = [enc_mut(m) for m in muts]
+        if written_from is not None:
+            # the table the file was written from: Lean checks that the file IS `docOf` of that table
+            req["written_from"] = {"obs": written_from["obs"], "samp": written_from["samp"],
+                                   "rows": core.grid_frac(written_from["rows"])}
+        r = ctx.driver.ask(req)
+        if k > 0:
+            ctx.evaluations += 1
+        cls = "+".join(m["m"] for m in muts) if muts else ("written" if is_base else "corpus-doc")
+        if k == 0:
+            if len(muts) <= 1:
+                ctx.count("json:%s->%s" % (cls, verdict))
+            else:
+                ctx.count("json:double->%s" % verdict)
+            if verdict == "valid":
+                ctx.count("json:accepted-loaded=%s" % ("ok" if load and "ok" in load else "FAIL"))
+        ctx.count("json:format_version=%s" % fv)
+        tg = base_tags + ("format_version=%s" % fv,)
+        fcase = dict(case, fv=fv)
+        if not r["holds"]:
+            extra = ()
+            if r["clause"] == "valid_loads":
+                extra = ("load-error:%s" % (load or {}).get("error", "mismatch"),)
+            ctx.fail(fcase, r["clause"], tg + extra, detail={"model": r["model"], "verdict": verdict, "load": load})
+        elif not r["agree"]:
+            ctx.diverge(fcase, "model differs: %s" % ",".join(r["differs"]), tg,
+                        detail={"model": r["model"], "verdict": verdict, "nlines": nlines, "load": load})
+        if with_exit:
+            check_exit(ctx, fcase, path, r["model"]["exit"], verdict, tg, fv)
+        if out is None:
+            out = (r, verdict)
+    return out
 
 
 def base_key(spec):
@@ -534,39 +562,55 @@ def h5_mutations(tree, n, m):
 
 
 def h5_case(ctx, case, base_path, base_tree, muts, n, m, is_base=False, tags=(), with_exit=False,
-            written_from=None):
-    path = os.path.join(TMP, F_CASE_H5)
-    shutil.copyfile(base_path, path)
+            written_from=None, fvs=(None,), in_place=False):
+    """one HDF5 case: the base file (copied unless `in_place`), mutated through h5py, observed once,
+    validated under each spelling of the format_version argument in `fvs`"""
+    if in_place:
+        path = base_path
+    else:
+        path = os.path.join(TMP, F_CASE_H5)
+        shutil.copyfile(base_path, path)
     for mu in muts:
         h_apply(mu, path)
-    verdict, nlines = real_validate(path)
     tree, dok = observe_h5(path)
-    req = {"op": "h5", "tree": tree, "date_ok": dok, "verdict": verdict, "nlines": nlines, "is_base": is_base}
-    if muts:
-        req["base"] = base_tree
-        req["muts"] = muts
-    if written_from is not None:
-        req["written_from"] = {"obs": written_from["obs"], "samp": written_from["samp"]}
-    r = ctx.driver.ask(req)
     classes = [h5_class(mu, n, m) for mu in muts]
-    if len(muts) <= 1:
-        ctx.count("hdf5:%s->%s" % (classes[0] if classes else "written", verdict))
-    else:
-        ctx.count("hdf5:double->%s" % verdict)
-    tags = tuple(tags) + ("hdf5",) + tuple(sorted(set(classes)))
-    if not r["holds"]:
-        unchecked = tuple("violated:%s" % c for c in r["model"]["violated"])
-        if r["clause"] == "corrupt_rejected":
-            for c in sorted(set(classes)):
-                if c in H5_PASS_CLASSES:
-                    ctx.count("hdf5:accepted-corrupt:%s" % c)
-        ctx.fail(case, r["clause"], tags + unchecked, detail={"model": r["model"], "verdict": verdict})
-    elif not r["agree"]:
-        ctx.diverge(case, "model differs: %s" % ",".join(r["differs"]), tags,
-                    detail={"model": r["model"], "verdict": verdict, "nlines": nlines})
-    if with_exit:
-        check_exit(ctx, case, path, r["model"]["exit"], verdict, tags)
-    return r, verdict
+    base_tags = tuple(tags) + ("hdf5",) + tuple(sorted(set(classes)))
+    out = None
+    for k, fv in enumerate(fvs):
+        verdict, nlines = real_validate(path, fv)
+        req = {"op": "h5", "tree": tree, "date_ok": dok, "verdict": verdict, "nlines": nlines,
+               "is_base": is_base, "fv": fv}
+        if muts:
+            req["base"] = base_tree
+            req["muts"] = muts
+        if written_from is not None:
+            req["written_from"] = {"obs": written_from["obs"], "samp": written_from["samp"]}
+        r = ctx.driver.ask(req)
+        if k > 0:
+            ctx.evaluations += 1
+        if k == 0:
+            if len(muts) <= 1:
+                ctx.count("hdf5:%s->%s" % (classes[0] if classes else "written", verdict))
+            else:
+                ctx.count("hdf5:double->%s" % verdict)
+        ctx.count("hdf5:format_version=%s->%s" % (fv, verdict))
+        tg = base_tags + ("format_version=%s" % fv,)
+        fcase = dict(case, fv=fv)
+        if not r["holds"]:
+            unchecked = tuple("violated:%s" % c for c in r["model"]["violated"])
+            if r["clause"] == "corrupt_rejected" and k == 0:
+                for c in sorted(set(classes)):
+                    if c in H5_PASS_CLASSES:
+                        ctx.count("hdf5:accepted-corrupt:%s" % c)
+            ctx.fail(fcase, r["clause"], tg + unchecked, detail={"model": r["model"], "verdict": verdict})
+        elif not r["agree"]:
+            ctx.diverge(fcase, "model differs: %s" % ",".join(r["differs"]), tg,
+                        detail={"model": r["model"], "verdict": verdict, "nlines": nlines})
+        if with_exit:
+            check_exit(ctx, fcase, path, r["model"]["exit"], verdict, tg, fv)
+        if out is None:
+            out = (r, verdict)
+    return out
 
 
 def write_h5(spec, route, path, compress=True):
@@ -611,11 +655,27 @@ def hard_id_spec(rng, mode, classes, max_n=5, max_m=5):
     return spec
 
 
-def written_json_case(ctx, spec, route, with_exit=False, tags=()):
+def explicit_dates():
+    """explicit creation dates: naive, with microseconds, timezone-aware (UTC, negative and fractional-hour offsets)"""
+    from datetime import timezone, timedelta
+    return [("naive", datetime(2021, 3, 4, 5, 6, 7)),
+            ("micro", datetime(2021, 3, 4, 5, 6, 7, 891011)),
+            ("aware-utc", datetime(2021, 3, 4, 5, 6, 7, 891011, tzinfo=timezone.utc)),
+            ("aware-neg", datetime(2021, 3, 4, 5, 6, 7, tzinfo=timezone(timedelta(hours=-7)))),
+            ("aware-half", datetime(2021, 12, 31, 23, 59, 59, 5, tzinfo=timezone(timedelta(hours=5, minutes=30))))]
+
+
+def parse_date(s):
+    return None if s is None else datetime.fromisoformat(s)
+
+
+def written_json_case(ctx, spec, route, with_exit=False, tags=(), path=None, creation_date=None,
+                      fvs=JSON_FVS):
     """write with the real to_json; a writer exception or text that is not JSON is a file the library
     wrote that cannot be reported valid"""
-    case = {"fmt": "json", "spec": spec, "route": route, "muts": []}
-    ctx.case({"fmt": "json", "spec": core.spec_obs(spec), "route": route}, nontrivial=True)
+    cd = creation_date.isoformat() if creation_date is not None else None
+    case = {"fmt": "json", "spec": spec, "route": route, "muts": [], "creation_date": cd}
+    ctx.case({"fmt": "json", "spec": core.spec_obs(spec), "route": route, "cd": cd}, nontrivial=True)
     try:
         t = core.build(spec, route)
     except Exception as e:
@@ -624,7 +684,7 @@ def written_json_case(ctx, spec, route, with_exit=False, tags=()):
         ctx.notes.append("skipped unbuildable spec (generator defect): obs=%r samp=%r" % (spec["obs"], spec["samp"]))
         return
     try:
-        text = t.to_json("c15-harness")
+        text = t.to_json("c15-harness", creation_date=creation_date)
     except Exception as e:
         ctx.count("json:written->writer-raised")
         ctx.fail(case, "written_valid", tuple(tags) + ("json", "writer-raised:%s" % type(e).__name__))
@@ -638,12 +698,17 @@ def written_json_case(ctx, spec, route, with_exit=False, tags=()):
     if doc is None:
         tags = tuple(tags) + ("unparsable-text",)
     json_case(ctx, case, doc, [], doc=doc, text=text, is_base=True, with_exit=with_exit, written_from=spec,
-              tags=tags)
+              tags=tags, fvs=fvs, path=path)
 
 
-def written_h5_case(ctx, spec, route, compress, base_path, with_exit=False, tags=()):
-    case = {"fmt": "hdf5", "spec": spec, "route": route, "muts": [], "compress": compress}
-    ctx.case({"fmt": "hdf5", "spec": core.spec_obs(spec), "route": route, "c": int(compress)}, nontrivial=True)
+def written_h5_case(ctx, spec, route, compress, base_path, with_exit=False, tags=(), creation_date=None,
+                    fvs=H5_FVS, via="to_hdf5"):
+    """write with the real to_hdf5 (or save_table) onto `base_path` and validate that very file"""
+    cd = creation_date.isoformat() if creation_date is not None else None
+    case = {"fmt": "hdf5", "spec": spec, "route": route, "muts": [], "compress": compress, "creation_date": cd,
+            "via": via}
+    ctx.case({"fmt": "hdf5", "spec": core.spec_obs(spec), "route": route, "c": int(compress), "cd": cd,
+              "via": via}, nontrivial=True)
     try:
         t = core.build(spec, route)
     except Exception as e:
@@ -652,15 +717,24 @@ def written_h5_case(ctx, spec, route, compress, base_path, with_exit=False, tags
         return
     try:
         import h5py
-        with h5py.File(base_path, "w") as f:
-            t.to_hdf5(f, "c15-harness", compress=compress)
+        if via == "save_table":
+            from biom.parse import save_table
+            if os.path.exists(base_path):
+                os.remove(base_path)
+            kw = {"generated_by": "c15-harness", "compress": compress}
+            if creation_date is not None:
+                kw["creation_date"] = creation_date
+            save_table(t, base_path, **kw)
+        else:
+            with h5py.File(base_path, "w") as f:
+                t.to_hdf5(f, "c15-harness", compress=compress, creation_date=creation_date)
         tree, _ = observe_h5(base_path)
     except Exception as e:
         ctx.count("hdf5:written->writer-raised")
         ctx.fail(case, "written_valid", tuple(tags) + ("hdf5", "writer-raised:%s" % type(e).__name__))
         return
     h5_case(ctx, case, base_path, tree, [], len(spec["obs"]), len(spec["samp"]), is_base=True,
-            with_exit=with_exit, written_from=spec, tags=tags)
+            with_exit=with_exit, written_from=spec, tags=tags, fvs=fvs, in_place=True)
 
 
 # ----------------------------------------------------------------------------- specs
@@ -684,6 +758,14 @@ ALL_ZERO_SPEC = {"obs": ["a", "b"], "samp": ["x", "y", "z"], "rows": [[0.0, 0.0,
 
 
 def fixed_corpus(ctx):
+    # repaired defect fbc97158: a file written with a timezone-aware creation date was reported invalid
+    shared = os.path.join(TMP, F_SHARED)
+    for name, dt in explicit_dates():
+        if name.startswith("aware"):
+            written_json_case(ctx, MD_SPEC, "dense", with_exit=True, tags=("corpus", "creation-date:%s" % name),
+                              path=shared, creation_date=dt)
+            written_h5_case(ctx, MD_SPEC, "dense", True, shared, with_exit=True,
+                            tags=("corpus", "creation-date:%s" % name), creation_date=dt)
     # repaired defect 4f718bb4: a JSON file with a duplicated row id was reported valid
     case = {"fmt": "json", "doc": DUP_ROW_DOC, "muts": [], "corpus": "dup-row-id (fixed 4f718bb4)"}
     ctx.case(case)
@@ -725,7 +807,7 @@ def fixed_corpus_h5(ctx):
         case = {"fmt": "hdf5", "spec": MD_SPEC, "route": "dense", "muts": [mu],
                 "corpus": "metadata check ignored (fixed dd41daf0)"}
         ctx.case(case)
-        h5_case(ctx, case, bp, tree, [mu], 2, 3, tags=("corpus", "md-check"), with_exit=True)
+        h5_case(ctx, case, bp, tree, [mu], 2, 3, tags=("corpus", "md-check"), with_exit=True, fvs=H5_FVS)
 
 
 # ----------------------------------------------------------------------------- run
@@ -734,7 +816,7 @@ def run(ctx):
     try:
         _run(ctx)
     finally:
-        for fn in (F_CASE, F_CASE_H5, F_BASE_H5):
+        for fn in (F_CASE, F_CASE_H5, F_BASE_H5, F_SHARED):
             try:
                 os.remove(os.path.join(TMP, fn))
             except OSError:
@@ -751,25 +833,44 @@ def _run(ctx):
     ctx.trusted = ["datetime.strptime is the oracle parameter dateOk of the model (evaluated by the harness)",
                    "h5py / json decode the files into the logical tree / document the model sees",
                    "python twins of `apply`/`applyH` (checked against Lean on every mutated case)"]
-    ctx.assumptions = ["format_version argument left at its default (JSON 1.0.0, HDF5 2.1)",
+    ctx.assumptions = ["format_version ranges over the accepted spellings (JSON: None, 1.0.0; HDF5: None, 2.1, 2.1.0, "
+                       "2.0, 2.0.0); rejected spellings raise before validation and are not enumerated",
                        "top-level JSON value is an object; NaN/Infinity literals not generated"]
     fixed_corpus(ctx)
     fixed_corpus_h5(ctx)
 
     exact = ("count", "smallcount", "dyadic", "neg")
-    # ---- written files are valid and load back (all value classes, all routes)
-    n_written = 60 if quick else 1500
+    # ---- written files are valid (under every spelling of format_version that requests their version) and
+    # load back: all value classes, all routes, explicit creation dates; JSON and HDF5 files are written
+    # ALTERNATELY ONTO THE SAME PATH within this process and each is validated there
+    shared = os.path.join(TMP, F_SHARED)
+    dates = explicit_dates()
+    n_written = 50 if quick else 1200
     for i in range(n_written):
         spec = gen_base_spec(rng, core.VALUE_CLASSES if i % 2 else exact, max_n=6, max_m=6)
         route = rng.choice(core.ROUTES)
-        written_json_case(ctx, spec, route, with_exit=(i < 10))
-    # IDs that need escaping, on each axis independently and on both
+        dn, dt = dates[i % len(dates)] if i % 2 == 0 else ("now", None)
+        tg = ("creation-date:%s" % dn,)
+        ctx.count("written:creation-date:%s" % dn)
+        written_json_case(ctx, spec, route, with_exit=(i < 10), path=shared, creation_date=dt, tags=tg)
+        if i % 2 == 0 or not quick:
+            spec2 = gen_base_spec(rng, core.VALUE_CLASSES, max_n=6, max_m=6)
+            via = "save_table" if i % 4 == 0 else "to_hdf5"
+            written_h5_case(ctx, spec2, rng.choice(core.ROUTES), bool(i % 3), shared, with_exit=(i < 10),
+                            creation_date=dt, tags=tg, via=via)
+    # IDs that need escaping, on each axis independently and on both (same shared path)
     n_hard = 36 if quick else 600
     for i in range(n_hard):
         mode = ("samp", "obs", "both")[i % 3]
         spec = hard_id_spec(rng, mode, exact)
-        written_json_case(ctx, spec, rng.choice(core.ROUTES), with_exit=(i < 6), tags=("hard-ids:%s" % mode,))
+        written_json_case(ctx, spec, rng.choice(core.ROUTES), with_exit=(i < 6), tags=("hard-ids:%s" % mode,),
+                          path=shared)
         ctx.count("json:hard-ids:%s" % mode)
+        if i % 2 == 0 or not quick:
+            spec2 = hard_id_spec(rng, mode, exact)
+            written_h5_case(ctx, spec2, rng.choice(core.ROUTES), bool(i % 2), shared, with_exit=(i < 3),
+                            tags=("hard-ids:%s" % mode,))
+            ctx.count("hdf5:hard-ids:%s" % mode)
 
     # ---- JSON fault enumeration
     n_bases = 5 if quick else 12
@@ -786,7 +887,7 @@ def _run(ctx):
         for mu in singles:
             case = {"fmt": "json", "spec": spec, "route": "dense", "muts": [mu]}
             ctx.case({"fmt": "json", "base": base_key(spec), "muts": [mu]}, nontrivial=True)
-            json_case(ctx, case, doc, [mu], with_exit=(b == 0))
+            json_case(ctx, case, doc, [mu], with_exit=(b == 0), fvs=JSON_FVS)
     if n_double is not None:
         for _ in range(n_double):
             b = rng.randrange(len(bases))
@@ -795,7 +896,7 @@ def _run(ctx):
             mus = [rng.choice(singles), rng.choice(singles)]
             case = {"fmt": "json", "spec": spec, "route": "dense", "muts": mus}
             ctx.case({"fmt": "json", "base": base_key(spec), "muts": mus}, nontrivial=True)
-            json_case(ctx, case, doc, mus)
+            json_case(ctx, case, doc, mus, fvs=(rng.choice(JSON_FVS),))
     else:
         budget = 330
         done = False
@@ -810,7 +911,7 @@ def _run(ctx):
                     mus = [m1, m2]
                     case = {"fmt": "json", "spec": spec, "route": "dense", "muts": mus}
                     ctx.case({"fmt": "json", "base": bk, "muts": mus}, nontrivial=True)
-                    json_case(ctx, case, doc, mus)
+                    json_case(ctx, case, doc, mus, fvs=(rng.choice(JSON_FVS),))
             if done:
                 ctx.notes.append("JSON double enumeration stopped by the time budget in base %d" % b)
                 break
@@ -819,18 +920,6 @@ def _run(ctx):
 
     # ---- HDF5: written files valid; fault enumeration
     base_path = os.path.join(TMP, F_BASE_H5)
-    n_hw = 25 if quick else 300
-    for i in range(n_hw):
-        spec = gen_base_spec(rng, core.VALUE_CLASSES, max_n=6, max_m=6)
-        route = rng.choice(core.ROUTES)
-        written_h5_case(ctx, spec, route, bool(i % 2), base_path, with_exit=(i < 5))
-    n_hhard = 18 if quick else 300
-    for i in range(n_hhard):
-        mode = ("samp", "obs", "both")[i % 3]
-        spec = hard_id_spec(rng, mode, exact)
-        written_h5_case(ctx, spec, rng.choice(core.ROUTES), bool(i % 2), base_path, with_exit=(i < 3),
-                        tags=("hard-ids:%s" % mode,))
-        ctx.count("hdf5:hard-ids:%s" % mode)
     n_hb = 3 if quick else 6
     n_hdouble = 250 if quick else None
     hbases = []
@@ -850,7 +939,7 @@ def _run(ctx):
         for mu in h5_mutations(tree, n, m):
             case = {"fmt": "hdf5", "spec": spec, "route": "dense", "muts": [mu]}
             ctx.case({"fmt": "hdf5", "base": base_key(spec), "muts": [mu]}, nontrivial=True)
-            h5_case(ctx, case, bp, tree, [mu], n, m, with_exit=(b == 0))
+            h5_case(ctx, case, bp, tree, [mu], n, m, with_exit=(b == 0), fvs=H5_FVS)
     try:
         if n_hdouble is not None:
             for _ in range(n_hdouble):
@@ -860,7 +949,7 @@ def _run(ctx):
                 mus = [rng.choice(singles), rng.choice(singles)]
                 case = {"fmt": "hdf5", "spec": spec, "route": "dense", "muts": mus}
                 ctx.case({"fmt": "hdf5", "base": base_key(spec), "muts": mus}, nontrivial=True)
-                h5_case(ctx, case, bp, tree, mus, n, m)
+                h5_case(ctx, case, bp, tree, mus, n, m, fvs=(rng.choice(H5_FVS),))
         else:
             budget = 560
             spec, bp, tree, n, m = hbases[1]
@@ -875,7 +964,7 @@ def _run(ctx):
                     mus = [m1, m2]
                     case = {"fmt": "hdf5", "spec": spec, "route": "dense", "muts": mus}
                     ctx.case({"fmt": "hdf5", "base": bk, "muts": mus}, nontrivial=True)
-                    h5_case(ctx, case, bp, tree, mus, n, m)
+                    h5_case(ctx, case, bp, tree, mus, n, m, fvs=(rng.choice(H5_FVS),))
             ctx.notes.append("HDF5 double enumeration over one base: %s" %
                              ("stopped by the time budget" if stopped else "every ordered pair"))
     finally:
@@ -889,23 +978,33 @@ def _run(ctx):
 def replay(ctx, rec):
     os.makedirs(TMP, exist_ok=True)
     case = rec["case"]
+    fvs = (case.get("fv"),)
+    shared = os.path.join(TMP, F_SHARED)
     try:
         if case["fmt"] == "json":
             if "doc" in case:
-                json_case(ctx, case, case["doc"], case["muts"], tags=("replay",))
+                json_case(ctx, case, case["doc"], case["muts"], tags=("replay",), fvs=fvs)
+            elif not case["muts"]:
+                written_json_case(ctx, case["spec"], case.get("route", "dense"), tags=("replay",), path=shared,
+                                  creation_date=parse_date(case.get("creation_date")), fvs=fvs)
             else:
-                text = written_json(case["spec"], case.get("route", "dense"))
-                doc = json.loads(text)
-                json_case(ctx, case, doc, case["muts"], text=None if case["muts"] else text,
-                          is_base=not case["muts"], tags=("replay",))
+                doc = json.loads(written_json(case["spec"], case.get("route", "dense")))
+                json_case(ctx, case, doc, case["muts"], tags=("replay",), fvs=fvs)
         else:
-            bp = os.path.join(TMP, F_BASE_H5)
-            write_h5(case["spec"], case.get("route", "dense"), bp, compress=case.get("compress", True))
-            tree, _ = observe_h5(bp)
-            h5_case(ctx, case, bp, tree, case["muts"], len(case["spec"]["obs"]), len(case["spec"]["samp"]),
-                    is_base=not case["muts"], tags=("replay",))
+            if not case["muts"]:
+                # a written file: precede it with a JSON file on the same path, as the run does
+                written_json_case(ctx, case["spec"], case.get("route", "dense"), tags=("replay",), path=shared)
+                written_h5_case(ctx, case["spec"], case.get("route", "dense"), case.get("compress", True), shared,
+                                tags=("replay",), creation_date=parse_date(case.get("creation_date")), fvs=fvs,
+                                via=case.get("via", "to_hdf5"))
+            else:
+                bp = os.path.join(TMP, F_BASE_H5)
+                write_h5(case["spec"], case.get("route", "dense"), bp, compress=case.get("compress", True))
+                tree, _ = observe_h5(bp)
+                h5_case(ctx, case, bp, tree, case["muts"], len(case["spec"]["obs"]), len(case["spec"]["samp"]),
+                        tags=("replay",), fvs=fvs)
     finally:
-        for fn in (F_CASE, F_CASE_H5, F_BASE_H5):
+        for fn in (F_CASE, F_CASE_H5, F_BASE_H5, F_SHARED):
             try:
                 os.remove(os.path.join(TMP, fn))
             except OSError:
